@@ -1,7 +1,7 @@
 (* Entry points of the model, addressed by name over the line protocol. *)
 From Coq Require Import String.
 From Coq Require Import NArith ZArith List Bool.
-From DI Require Import Result PyStr Val Codec Version Dpkg Deps Package Contents Deb822 Email Debcon Copyright.
+From DI Require Import Result PyStr Val Codec Version Dpkg Deps Package Contents Deb822 Email Debcon Copyright Unsign.
 Import ListNotations.
 Open Scope N_scope.
 
@@ -282,6 +282,23 @@ Definition dispatch_copyright (fn : str) (args : list val) : option val :=
   | _ => None
   end.
 
+(* ---------- unsign ---------- *)
+
+Definition dispatch_unsign (fn : str) (args : list val) : option val :=
+  match args with
+  | [VStr a] =>
+      if fn_is "pgp_search" fn then
+        Some (match pgp_search a with
+              | None => VNone
+              | Some None => VList []
+              | Some (Some c) => VList [VStr c]
+              end)
+      else if fn_is "is_signed" fn then Some (VBool (is_signed a))
+      else if fn_is "remove_signature" fn then Some (VStr (remove_signature a))
+      else None
+  | _ => None
+  end.
+
 Definition dispatch_all (fn : str) (args : list val) : val :=
   match dispatch_version fn args with
   | Some v => v
@@ -300,7 +317,11 @@ Definition dispatch_all (fn : str) (args : list val) : val :=
                   | None =>
                       match dispatch_copyright fn args with
                       | Some v => v
-                      | None => dispatch fn args
+                      | None =>
+                          match dispatch_unsign fn args with
+                          | Some v => v
+                          | None => dispatch fn args
+                          end
                       end
                   end
               end
